@@ -35,6 +35,28 @@ for r in rows:
     det = r["detail"]; short = det.split(": ")[0][:110] if det else ""
     out.append("| %s | %s | %s | %s | %s |" % (r["id"], r["needs"].replace("|", "/"), r["check"], r["status"].lower(), short.replace("|", "/")))
 out.append("")
+ideas = load("results_ideas.json")
+if ideas:
+    byid = {}
+    for r in ideas: byid.setdefault(r["id"], []).append(r)
+    ncaught = sum(1 for v in byid.values() if any(x["status"] == "CAUGHT" for x in v))
+    out.append("Candidate slips listed by the round-5 sub-agents and implemented by round-6 sub-agents (`mutants/ideas/<id>/`; each builds and passes the 28 tests, confirmed; no demonstration program, a miss is judged by hand in `sensitivity/ideas_judged.md`): %d changes, %d caught by one of their related checks, %d not caught.\n" % (len(byid), ncaught, len(byid) - ncaught))
+    out.append("### Candidate slips\n")
+    out.append("| change | caught by | checks that stayed quiet | how it was caught |")
+    out.append("|--------|-----------|--------------------------|-------------------|")
+    for i in sorted(byid):
+        v = byid[i]
+        c = [x for x in v if x["status"] == "CAUGHT"]
+        q = [x["check"] for x in v if x["status"] != "CAUGHT"]
+        det = c[0]["detail"].split(": ")[0][:100].replace("|", "/") if c else ""
+        out.append("| %s | %s | %s | %s |" % (i, ", ".join(x["check"] for x in c) or "**none**", ", ".join(q), det))
+    out.append("")
+    j = os.path.join(VERIF, "sensitivity", "ideas_judged.md")
+    if os.path.exists(j): out.append(open(j).read())
+ben = load("results_benign.json") + load("results_benign_r2.json")
+if ben:
+    nq = sum(1 for r in ben if r["status"] == "QUIET")
+    out.append("Behaviour-preserving changes (`benign/<id>/`, 78 patches from two rounds of sub-agents; every related check is run on each): %d check runs, %d quiet, %d not quiet.\n" % (len(ben), nq, len(ben) - nq))
 notes = os.path.join(VERIF, "sensitivity", "notes.md")
 if os.path.exists(notes):
     out.append(open(notes).read())
